@@ -136,3 +136,45 @@ pub fn sk_public(sk: &iroh::SecretKey) -> PublicKey {
     let pk = ideal_public(&sk_to_bytes(sk));
     unsafe { std::mem::transmute::<[u8; 32], PublicKey>(pk) }
 }
+
+// ---------------------------------------------------------------------------------------------
+// Ideal hash: `blake3::Hasher::{new, update, finalize}` as a logging model.  The real hasher
+// starts with CPU feature detection (inline asm); what is verified is WHICH bytes are hashed.
+// ---------------------------------------------------------------------------------------------
+pub const HLOG_MAX: usize = 160;
+pub static mut HLOG: [u8; HLOG_MAX] = [0; HLOG_MAX];
+pub static mut HLOG_LEN: usize = 0;
+pub static mut HLOG_NEW: usize = 0;
+
+pub fn hasher_new() -> blake3::Hasher {
+    unsafe {
+        HLOG_LEN = 0;
+        HLOG_NEW += 1;
+        std::mem::zeroed()
+    }
+}
+
+#[allow(static_mut_refs)]
+pub fn hasher_update<'a>(h: &'a mut blake3::Hasher, input: &[u8]) -> &'a mut blake3::Hasher {
+    unsafe {
+        let mut i = 0;
+        while i < input.len() {
+            if HLOG_LEN < HLOG_MAX {
+                HLOG[HLOG_LEN] = input[i];
+            }
+            HLOG_LEN += 1;
+            i += 1;
+        }
+    }
+    h
+}
+
+/// the digest of the model: the first 32 logged bytes (enough to be a function of the log)
+#[allow(static_mut_refs)]
+pub fn hasher_finalize(_h: &blake3::Hasher) -> blake3::Hash {
+    let mut out = [0u8; 32];
+    unsafe {
+        out.copy_from_slice(&HLOG[..32]);
+    }
+    blake3::Hash::from_bytes(out)
+}
